@@ -6,6 +6,7 @@ package main
 
 import (
 	"fmt"
+	"go/ast"
 	"go/constant"
 	"go/token"
 	"go/types"
@@ -91,13 +92,16 @@ type Exec struct {
 	dynModels    map[string]libModel
 	opaqueSpecs  map[string]bool
 	unfolded     map[string]bool
+	pairSrc, pairIg Term
+	rowResults   map[string]*rowResult
+	nCommitSites int
 }
 
 func NewExec(w *World) *Exec {
 	x := &Exec{w: w, sc: NewScript(), structs: map[string]*structInfo{}, structBySort: map[Sort]*structInfo{},
 		strLits: map[string]Term{}, typeTags: map[string]int{}, heapSorts: map[string]Sort{},
 		assumptions: map[string]bool{}, ghostInit: map[string]Term{}, oblCount: map[string]int{},
-		modCache: map[*ssa.Function]*modSet{}, specs: map[string]*compiledSpec{}, dynModels: map[string]libModel{}, opaqueSpecs: map[string]bool{}, unfolded: map[string]bool{}}
+		modCache: map[*ssa.Function]*modSet{}, specs: map[string]*compiledSpec{}, dynModels: map[string]libModel{}, opaqueSpecs: map[string]bool{}, unfolded: map[string]bool{}, rowResults: map[string]*rowResult{}}
 	x.sc.Decl("preamble", preamble)
 	return x
 }
@@ -122,6 +126,7 @@ type Frame struct {
 	// contract environment names
 	names map[string]*Val
 	pkg   *types.Package
+	debugNames map[string]ssa.Value
 }
 
 type retPoint struct {
@@ -325,6 +330,35 @@ func appendUnique(xs []string, s string) []string {
 
 func (x *Exec) computeLoops(fr *Frame) {
 	fn := fr.fn
+	// source names of single-assignment values
+	fr.debugNames = map[string]ssa.Value{}
+	multi := map[string]bool{}
+	for _, b := range fn.Blocks {
+		for _, ins := range b.Instrs {
+			d, ok := ins.(*ssa.DebugRef)
+			if !ok || d.IsAddr {
+				continue
+			}
+			id, ok := d.Expr.(*ast.Ident)
+			if !ok {
+				continue
+			}
+			if _, isPhi := d.X.(*ssa.Phi); isPhi {
+				multi[id.Name] = true
+				continue
+			}
+			if _, isConst := d.X.(*ssa.Const); isConst {
+				continue
+			}
+			if old, ok := fr.debugNames[id.Name]; ok && old != d.X {
+				multi[id.Name] = true
+			}
+			fr.debugNames[id.Name] = d.X
+		}
+	}
+	for n := range multi {
+		delete(fr.debugNames, n)
+	}
 	fr.loops = map[*ssa.BasicBlock]*loopInfo{}
 	var heads []*ssa.BasicBlock
 	for _, b := range fn.Blocks {
